@@ -388,10 +388,12 @@ func OP_NEW_MAP_Handler(v *VM) {
 	v.pc += w
 
 	m := val.Map(ty.(*types.Type).Map()).Map()
-	for i := 0; i < sz; i++ {
-		vl := v.Pop()
-		key := v.Pop()
-		m.V[key.Key()] = vl
+	kvs := make([]*val.Val, 2*sz)
+	for i := len(kvs) - 1; i >= 0; i-- {
+		kvs[i] = v.Pop()
+	}
+	for i := 0; i < len(kvs); i += 2 {
+		m.V[kvs[i].Key()] = kvs[i+1]
 	}
 	v.Push(m.Vl())
 }
